@@ -261,6 +261,26 @@ def install(it):
     def _round(it, a, kw):
         if not any(is_symbolic(x) for x in a):
             return it.host_call(round, *a)
+        x = a[0]
+        n = a[1] if len(a) > 1 else kw.get('ndigits')
+        if isinstance(x, SInt) and (n is None or (isinstance(n, int)
+                                                  and n >= 0)):
+            return x
+        if isinstance(x, SReal) and (n is None or isinstance(n, int)):
+            # round-half-to-even on the real value (A-FLOAT)
+            k = 0 if n is None else n
+            scale = z3.RealVal(10) ** k if k >= 0 else None
+            if scale is None:
+                raise Unsupported('round to negative digits')
+            y = x.e * (10 ** k)
+            f = z3.ToInt(y)
+            d = y - z3.ToReal(f)
+            half = z3.RealVal(1) / 2
+            r = z3.If(d < half, f, z3.If(d > half, f + 1,
+                                         z3.If(f % 2 == 0, f, f + 1)))
+            if n is None:
+                return mk_int(r)
+            return mk_real(z3.ToReal(r) / (10 ** k))
         raise Unsupported('round of symbolic')
 
     @builtin('property')
